@@ -418,7 +418,7 @@ func (c *Ctx) pureUF(name string, T types.Type, recv Value, args []Value) Value 
 	if T == nil {
 		return Value{Kind: KNone}
 	}
-	return x.symbolic(name, T, func(n string, s Sort) *Term { return App(n, s, ts...) })
+	return x.symbolic("uf."+name, T, func(n string, s Sort) *Term { return App(n, s, ts...) })
 }
 
 func (c *Ctx) callback(name string, T types.Type, e *ast.CallExpr) Value {
@@ -753,7 +753,7 @@ func (c *Ctx) inlineCall(fi *FuncInfo, recv Value, args []Value, e *ast.CallExpr
 		st = c.st.Clone()
 	}
 	x.bindParams(fr, st, recv, args, e)
-	out := x.runBody(fr, st)
+	out := x.mergeAll(x.runBody(fr, st))
 	if out == nil {
 		// no path returns (e.g. always panics)
 		c.st.assume(False)
@@ -814,7 +814,10 @@ func (c *Ctx) intrinsic(o *types.Func, recv Value, args []Value, e *ast.CallExpr
 		c.wallClock(full, e)
 		return c.newTimer(args[0], e)
 	case "(time.Time).Sub":
-		return Scalar(Sub(recv.S, args[0].S), rt)
+		// time.Time.Sub saturates at the int64 range
+		d := Sub(recv.S, args[0].S)
+		lo, hi := IntStr("-9223372036854775808"), IntStr("9223372036854775807")
+		return Scalar(Ite(Lt(d, lo), lo, Ite(Gt(d, hi), hi, d)), rt)
 	case "(time.Time).Add":
 		return Scalar(Add(recv.S, args[0].S), rt)
 	case "(time.Time).UnixNano":
